@@ -338,6 +338,7 @@ func main() {
 	ctx.Jobs("sender", len(alphabet), func(j int) { senderSpace(j) })
 	ctx.Jobs("pauses", 8, func(j int) { pauses(j, 8) })
 	ctx.Jobs("periodic", 16, func(j int) { periodic(j, 16) })
+	ctx.Jobs("deep", len(deepKinds), func(j int) { deepSpace(j) })
 	ctx.Jobs("thru", 1, func(int) { thru(); refused(); fractions() })
 	ctx.Set("traces_validated_against_impl", ctx.GetInt("transitions"))
 	ctx.Set("max_depth", ctx.GetInt("max:depth"))
